@@ -26,7 +26,7 @@ inductive IVar where
   | grpS (c : Nat) | grpE (c : Nat)           -- task_group_start_<uuid>, task_group_end_<uuid>
   | overlap (c : Nat) (lo hi : Int) (k : Nat) -- Overlap_<lo>_<hi>_<hex8>, k-th of constraint c
   | bufInit (b : String)                      -- `<b>_initial_level`
-  | bufLevel (b t : String)                   -- `<b>_level_<t>`
+  | bufLevel (b t : String)                   -- `<b>_level_<t>` (t = `<task>_unloading` / `<task>_loading`)
   | bufTime (b t : String)                    -- `<b>_sc_time_<t>`
   | ind (name : String)                       -- `Indicator_<name>`
   | indAuto (cls : String) (i : Nat)          -- `Indicator_<cls>_<uid8>` (auto-named indicator i)
